@@ -145,6 +145,10 @@ def run(ck, F):
         ck.undecided("R3", "positive-control", "engine/controls/src/lib.rs", f"ambient scanner reports {sorted(camb)} on the controls")
     # ---- R2
     rule_reset_on_entry(ck, F)
+    # ---- R4: keys of the file table are the registered names themselves (shared with C11.R4): with a normalising key two files
+    # can land in one slot and which of them is read depends on the order of registration / directory enumeration
+    from rules import c11 as C11
+    C11.rule_verbatim_keys(ck, F, "R4")
 
 
 def flag_loads(F):
